@@ -22,9 +22,18 @@ def lit(n):
 
 
 class V:
-    """A value: SMT term (string) + rust type; `const` holds the Python int if fully known."""
-    def __init__(self, term, ty, const=None):
+    """A value: SMT term (string) + rust type; `const` holds the Python int if fully known;
+    (lo, hi) is a sound interval for the value (defaults to the type range)."""
+    def __init__(self, term, ty, const=None, lo=None, hi=None):
         self.term, self.ty, self.const = term, ty, const
+        if const is not None and ty != "bool":
+            lo = hi = const
+        if ty in INT_T:
+            tl, th = trange(ty)
+            self.lo = tl if lo is None else max(lo, tl)
+            self.hi = th if hi is None else min(hi, th)
+        else:
+            self.lo = self.hi = None
 
 
 def mkconst(n, ty):
@@ -33,8 +42,10 @@ def mkconst(n, ty):
     return V(lit(n), ty, n)
 
 
-def wrap(term, ty, const=None):
-    """reduce an unbounded integer term into the range of `ty` (two's complement)"""
+def wrap(term, ty, const=None, rlo=None, rhi=None):
+    """reduce an unbounded integer term into the range of `ty` (two's complement); when the
+    interval [rlo, rhi] of the raw value already lies inside the type range no reduction is
+    emitted (keeps the formulas small: z3 4.8 times out on needlessly nested mod terms)"""
     lo, hi = trange(ty)
     s, w = INT_T[ty]
     if const is not None:
@@ -42,6 +53,8 @@ def wrap(term, ty, const=None):
         if s and c > hi:
             c -= (1 << w)
         return mkconst(c, ty)
+    if rlo is not None and rhi is not None and lo <= rlo and rhi <= hi:
+        return V(term, ty, None, rlo, rhi)
     m = lit(1 << w)
     if not s:
         return V("(mod %s %s)" % (term, m), ty)
@@ -224,10 +237,19 @@ class Exec:
             rc = None
             if both:
                 rc = {"Add": a.const + b.const, "Sub": a.const - b.const, "Mul": a.const * b.const}[op]
-            val = wrap(raw, ty, rc)
+            if op == "Add":
+                rlo, rhi = a.lo + b.lo, a.hi + b.hi
+            elif op == "Sub":
+                rlo, rhi = a.lo - b.hi, a.hi - b.lo
+            else:
+                cands = [a.lo * b.lo, a.lo * b.hi, a.hi * b.lo, a.hi * b.hi]
+                rlo, rhi = min(cands), max(cands)
+            val = wrap(raw, ty, rc, rlo, rhi)
             if with_overflow:
                 if rc is not None:
                     flag = mkconst(not (lo <= rc <= hi), "bool")
+                elif lo <= rlo and rhi <= hi:
+                    flag = mkconst(False, "bool")
                 else:
                     flag = V("(or (< %s %s) (> %s %s))" % (raw, lit(lo), raw, lit(hi)), "bool")
                 return (val, flag)
@@ -245,11 +267,12 @@ class Exec:
                 return wrap(None, ty, q if op == "Div" else r)
             if b.const < 0:
                 raise Unsupported("division by a negative constant")
-            s, _ = INT_T[ty]
-            if s:
-                t = tdiv(a.term, b.term) if op == "Div" else trem(a.term, b.term)
-            else:
+            if a.lo >= 0:
                 t = "(%s %s %s)" % ("div" if op == "Div" else "mod", a.term, b.term)
+                if op == "Div":
+                    return V(t, ty, None, a.lo // b.const, a.hi // b.const)
+                return V(t, ty, None, 0, min(a.hi, b.const - 1))
+            t = tdiv(a.term, b.term) if op == "Div" else trem(a.term, b.term)
             return V(t, ty)
         if op in ("Shl", "Shr"):
             if b.const is None:
@@ -258,16 +281,17 @@ class Exec:
             if op == "Shl":
                 if a.const is not None:
                     return wrap(None, ty, a.const << k)
-                return wrap("(* %s %s)" % (a.term, lit(1 << k)), ty)  # bits shifted out are lost silently
+                # bits shifted out are lost silently (Rust checks only the shift amount)
+                return wrap("(* %s %s)" % (a.term, lit(1 << k)), ty, None, a.lo << k, a.hi << k)
             if a.const is not None:
                 return mkconst(a.const >> k, ty)
-            return V("(div %s %s)" % (a.term, lit(1 << k)), ty)  # floor = arithmetic shift
+            return V("(div %s %s)" % (a.term, lit(1 << k)), ty, None, a.lo >> k, a.hi >> k)  # floor = arithmetic shift
         if op == "BitAnd":
             for x, y in ((a, b), (b, a)):
                 if y.const is not None and y.const >= 0 and (y.const & (y.const + 1)) == 0 and INT_T[ty][0] == 0:
                     if x.const is not None:
                         return mkconst(x.const & y.const, ty)
-                    return V("(mod %s %s)" % (x.term, lit(y.const + 1)), ty)
+                    return V("(mod %s %s)" % (x.term, lit(y.const + 1)), ty, None, 0, y.const)
             if both:
                 return mkconst(a.const & b.const, ty)
             raise Unsupported("BitAnd with a mask that is not 2^k-1")
@@ -280,7 +304,9 @@ class Exec:
         m = re.match(r"^(.*) as ([\w]+) \(IntToInt\)$", s)
         if m:
             v = self.operand(m.group(1), env)
-            return wrap(v.term, m.group(2), v.const)
+            if v.ty == "bool":
+                raise Unsupported("bool to int cast")
+            return wrap(v.term, m.group(2), v.const, v.lo, v.hi)
         m = re.match(r"^(Add|Sub|Mul)WithOverflow\((.*), (.*)\)$", s)
         if m:
             return self.binop(m.group(1), self.operand(m.group(2), env), self.operand(m.group(3), env), True)
